@@ -67,6 +67,7 @@ def annotations(tier):
   out += ["Union[int, str]", "int | None", "Union[A, C]", "Union[list[int], str]", "Optional[A]"]
   out += ["list", "dict", "tuple", "set", "type", "Callable"]
   out += ["tuple[list[int], ...]", "Sequence[list[int]]", "Iterable[tuple[int]]", "tuple[dict[str, int], ...]", "tuple[A, ...]"]
+  out += ["tuple[tuple[int, int]]", "Sequence[tuple[int, int]]", "tuple[tuple[bool, bool], ...]"]   # nested item types decide
   out += ["Callable[[], int]", "Callable[[int], int]", "Callable[..., Any]", "Callable[[int, int], Any]",
           "Callable[[], Any]"]
   if tier != "quick":
